@@ -2913,7 +2913,12 @@ def reset_data_keyframe(m: types.Model, d: types.Data, key: int | wp.array):
       raise ValueError(f"key array must have shape ({d.nworld},), got {key.shape}.")
     if not wp.types.type_is_int(key.dtype):
       raise ValueError(f"key array must be of integer type, got {key.dtype}.")
-    key_input = key
+    if key.dtype == wp.int32:
+      key_input = key
+    else:
+      # other integer widths are accepted above: convert instead of failing at kernel launch
+      key_input = wp.empty(d.nworld, dtype=int)
+      wp.utils.array_cast(key, key_input)
   elif isinstance(key, (int, np.integer)):
     key = int(key)
     if key < 0 or key >= m.nkey:
